@@ -292,6 +292,28 @@ def _r2_sort(run: Run) -> None:
                     "sort_with_sign no longer returns Permutation(indices).signature() for distinct elements and 0 for repeated ones, with indices = positions of the sorted elements in the input")
 
 
+def _r2_key(run: Run, mod) -> None:
+    """operands are ordered by object identity: equal keys must mean 'the same vector twice'"""
+    fn = next((s for s in mod.tree.body if isinstance(s, ast.FunctionDef) and s.name == "_ordered_mul"), None)
+    if fn is None:
+        raise AnalysisError("C14: _ordered_mul not found")
+    run.ob("R2", "_ordered_mul:identity-key")
+    calls = [c for c in ast.walk(fn) if isinstance(c, ast.Call) and dotted(c.func) == "sort_with_sign"]
+    if not calls:
+        raise AnalysisError("C14: _ordered_mul no longer calls sort_with_sign")
+    from ..flow import CFG, node_of
+    cfg = CFG(fn)
+    for c in calls:
+        k = next((kw_.value for kw_ in c.keywords if kw_.arg == "key"), c.args[1] if len(c.args) > 1 else None)
+        n = node_of(cfg, c)
+        sl = cfg.slice(n, [k]) if (k is not None and n is not None) else None
+        ok = sl is not None and sl.params <= {"key"} and sl.free == {"id"} and not sl.calls
+        if not ok:
+            run.violate("R2", f"{MOD}:_ordered_mul:key", mod, c,
+                        f"the operands of a product are ordered by `{norm(k, 40) if k is not None else 'natural order'}` (default derived from {sorted((sl.free | sl.calls) if sl else [])}); only "
+                        f"object identity `id` guarantees that equal keys mean the same vector - two distinct vectors with equal keys collapse (cross -> 0, dot -> norm^2)")
+
+
 def _r3(run: Run, mod) -> None:
     t = ("t", )
     # binary products
@@ -370,6 +392,135 @@ def _r3(run: Run, mod) -> None:
         run.violate("R3", f"{MOD}:VectorNorm._eval_derivative", mod, fn, "the derivative of norm(v) is not dot(v, dv) / norm(v)")
 
 
+HOOKS = ("_eval_vector_dot", "_eval_vector_cross")
+
+
+def _names(e) -> set:
+    return {x.id for x in ast.walk(e) if isinstance(x, ast.Name)}
+
+
+def _operand_worlds(fn: ast.FunctionDef, seed_worlds: list) -> list:
+    """[(world, hook call)] - for every call of an operand hook inside `fn`, the possible assignments name -> operand position
+    (0 = left, 1 = right). Positions start at 2-tuple unpackings of the operand pair and are carried through position-wise
+    re-bindings (`lhs, rhs = lhs.doit(), rhs.doit()`) and loops over literal tuples of pairs."""
+    out = []
+
+    def pos_of(e, w):
+        ps = {w.get(n) for n in _names(e) if n in w}
+        return ps.pop() if len(ps) == 1 else None
+
+    def hook_calls(st):
+        for x in ast.walk(st):
+            if isinstance(x, ast.Call) and len(x.args) == 2:
+                f = x.func
+                if isinstance(f, ast.Attribute) and f.attr in HOOKS:
+                    yield x
+                elif isinstance(f, ast.Call) and dotted(f.func) == "getattr" and len(f.args) == 2:
+                    yield x
+
+    def walk(body, worlds):
+        for st in body:
+            if isinstance(st, ast.Assign) and len(st.targets) == 1 and isinstance(st.targets[0], ast.Tuple) and len(st.targets[0].elts) == 2 \
+                    and all(isinstance(e, ast.Name) for e in st.targets[0].elts):
+                t0, t1 = (e.id for e in st.targets[0].elts)
+                v = st.value
+                for w in worlds:
+                    if isinstance(v, ast.Tuple) and len(v.elts) == 2:
+                        p0, p1 = pos_of(v.elts[0], w), pos_of(v.elts[1], w)
+                        w[t0], w[t1] = p0, p1
+                    elif (isinstance(v, ast.Call) and dotted(v.func) == "map" and len(v.args) == 2 and dotted(v.args[1]) in ("values", "args")) or dotted(v) in ("values", "args", "self.args"):
+                        w[t0], w[t1] = 0, 1
+                    else:
+                        w[t0], w[t1] = None, None
+            elif isinstance(st, ast.For) and isinstance(st.target, ast.Tuple) and len(st.target.elts) == 2 and isinstance(st.iter, ast.Tuple) \
+                    and all(isinstance(e, ast.Tuple) and len(e.elts) == 2 for e in st.iter.elts):
+                u, v = (e.id for e in st.target.elts)
+                for pair in st.iter.elts:
+                    ws = []
+                    for w in worlds:
+                        w2 = dict(w)
+                        w2[u], w2[v] = pos_of(pair.elts[0], w), pos_of(pair.elts[1], w)
+                        ws.append(w2)
+                    walk(st.body, ws)
+                continue
+            for c in (hook_calls(st) if not isinstance(st, (ast.If, ast.For, ast.While, ast.With, ast.Try)) else
+                      hook_calls(getattr(st, "test", None) or getattr(st, "iter", None) or ast.Pass())):
+                for w in worlds:
+                    out.append((dict(w), c))
+            for blk in ("body", "orelse", "finalbody"):
+                if isinstance(st, (ast.If, ast.For, ast.While, ast.With, ast.Try)) and getattr(st, blk, None):
+                    walk(getattr(st, blk), [dict(w) for w in worlds] if isinstance(st, ast.If) else worlds)
+    walk(fn.body, seed_worlds)
+    return out
+
+
+def _r4_hooks(run: Run, mod) -> None:
+    """operand hooks are rewrite rules for product(lhs, rhs): whoever calls one passes (left operand, right operand) in that order"""
+    fns = [f for f in ast.walk(mod.tree) if isinstance(f, ast.FunctionDef)]
+    total = 0
+    for fn in fns:
+        direct = [x for x in ast.walk(fn) if isinstance(x, ast.Call) and ((isinstance(x.func, ast.Attribute) and x.func.attr in HOOKS and len(x.args) == 2)
+                                                                           or (isinstance(x.func, ast.Call) and dotted(x.func.func) == "getattr" and len(x.args) == 2))]
+        if not direct or any(g is not fn and any(y is direct[0] for y in ast.walk(g)) and any(g2 is g for g2 in ast.walk(fn)) for g in fns):
+            continue
+        params = [a.arg for a in fn.args.args]
+        seeds = [{}]
+        if fn.name not in ("__new__", "eval"):
+            # a helper: operand positions come from its call sites
+            seeds = []
+            for caller in fns:
+                for c in [x for x in ast.walk(caller) if isinstance(x, ast.Call) and dotted(x.func) == fn.name]:
+                    for w, _ in _operand_worlds_at(caller, c):
+                        seeds.append({p: (w.get(a.id) if isinstance(a, ast.Name) else None) for p, a in zip(params, c.args)})
+            if not seeds:
+                continue
+        for w, c in _operand_worlds(fn, seeds):
+            a0, a1 = c.args
+            total += 1
+            run.ob("R4", f"{fn.name}:{norm(c, 50)}")
+            p0 = w.get(a0.id) if isinstance(a0, ast.Name) else None
+            p1 = w.get(a1.id) if isinstance(a1, ast.Name) else None
+            if (p0, p1) == (0, 1):
+                continue
+            if (p0, p1) == (1, 0):
+                run.violate("R4", f"{MOD}:{fn.name}:hook-operands-swapped", mod, c,
+                            f"`{norm(c, 70)}` in {fn.name} can pass (right operand, left operand) to an operand hook: the hook's rules rewrite product(first, second), so "
+                            f"a x (b x c) is evaluated as (b x c) x a - the cross product changes sign")
+            else:
+                raise AnalysisError(f"C14: operands of hook call `{norm(c, 60)}` in {fn.name} cannot be traced to the product's operand pair")
+    run.floor("R4", total, 4, "operand hook call sites")
+
+
+def _operand_worlds_at(fn: ast.FunctionDef, call: ast.Call) -> list:
+    """worlds (name -> operand position) in force where `call` (a helper call inside product constructor fn) is evaluated"""
+    marker = call
+    found = []
+
+    def walk(body, worlds):
+        for st in body:
+            if isinstance(st, ast.Assign) and len(st.targets) == 1 and isinstance(st.targets[0], ast.Tuple) and len(st.targets[0].elts) == 2 \
+                    and all(isinstance(e, ast.Name) for e in st.targets[0].elts):
+                t0, t1 = (e.id for e in st.targets[0].elts)
+                v = st.value
+                for w in worlds:
+                    if isinstance(v, ast.Tuple) and len(v.elts) == 2:
+                        def pos_of(e, w=w):
+                            ps = {w.get(n) for n in _names(e) if n in w}
+                            return ps.pop() if len(ps) == 1 else None
+                        w[t0], w[t1] = pos_of(v.elts[0]), pos_of(v.elts[1])
+                    elif (isinstance(v, ast.Call) and dotted(v.func) == "map" and len(v.args) == 2 and dotted(v.args[1]) in ("values", "args")) or dotted(v) in ("values", "args", "self.args"):
+                        w[t0], w[t1] = 0, 1
+                    else:
+                        w[t0], w[t1] = None, None
+            if any(x is marker for x in ast.walk(st)) and not isinstance(st, (ast.If, ast.For, ast.While, ast.With, ast.Try)):
+                found.extend(dict(w) for w in worlds)
+            for blk in ("body", "orelse", "finalbody"):
+                if isinstance(st, (ast.If, ast.For, ast.While, ast.With, ast.Try)) and getattr(st, blk, None):
+                    walk(getattr(st, blk), worlds)
+    walk(fn.body, [{}])
+    return [(w, call) for w in found]
+
+
 def check(run: Run) -> None:
     run.rule("R1", "every product rewrite rule (pattern => replacement) is a polynomial identity in the components of generic real 3-vectors")
     run.rule("R2", "sort_with_sign returns the permutation signature (0 on repeats); products multiply by it exactly when antisymmetric; special values for repeated operands")
@@ -377,5 +528,8 @@ def check(run: Run) -> None:
     mod = run.src.need(MOD)
     _r1_rules(run, mod, _cls(mod, "VectorCross"))
     _r2_sort(run)
+    _r2_key(run, mod)
     _r2_products(run, mod)
     _r3(run, mod)
+    run.rule("R4", "operand hooks (_eval_vector_dot/_eval_vector_cross) are always called with (left operand, right operand) of the product being evaluated")
+    _r4_hooks(run, mod)
